@@ -82,6 +82,71 @@ class Boundary(Part):
         return {"field": case["field"], "size": case["size"]}
 
 
+class FuzzDecoded(Part):
+    """Coverage-guided campaign (atheris): message VALUES obtained by decoding fuzzed bytes (values no generator of
+    ours would build) must round-trip too: pack(y) -> unpack -> equal projection, and re-pack reproduces the bytes."""
+
+    name = "atheris-decoded-values"
+    fuzz = True
+    shards = {QUICK: 0, THOROUGH: 16}
+    fuzz_runs = {QUICK: 0, THOROUGH: 400000}
+    budget = {QUICK: 10.0, THOROUGH: 2400.0}
+
+    def seed_corpus(self) -> t.List[bytes]:
+        import glob
+        import os
+
+        from .. import rfc4511
+
+        root = os.path.join(os.path.dirname(os.environ.get("VERIF_REPO_SRC", "/repo/src")), "tests", "data")
+        out = []
+        for f in sorted(glob.glob(os.path.join(root, "*"))):
+            with open(f, "rb") as fh:
+                out.append(fh.read())
+        out += [rfc4511.encode(m) for m in msgcheck._templates().values()]
+        return out
+
+    def check(self, case: t.Any, ctx: Ctx) -> t.List[Violation]:
+        opts = absval.default_options()
+        try:
+            y, _rest = absval.lib_unpack(case["data"], opts)
+        except Exception:
+            ctx.event("undecodable")
+            return []
+        ay = absval.to_abstract(y, decoded=True)
+        if absval.has_marker(ay):
+            return [Violation("decoded-value-ill-typed", f"{case['data'].hex()} -> {ay!r}")]
+        kind = ay["kind"]
+        ctx.event(f"decoded:{kind}")
+        ctx.nontrivial(ay)
+        try:
+            b2 = y.pack(opts)
+        except UnicodeEncodeError:
+            return []  # cannot happen for values decoded from UTF-8; kept out of scope like lone surrogates in C01
+        except Exception as e:
+            return [Violation(f"decoded-value-cannot-be-packed:{kind}:{msgcheck.exc_site(e)}", f"{case['data'].hex()} -> {ay!r}: {e!r}")]
+        try:
+            y2, rest2 = absval.lib_unpack(b2, opts)
+        except Exception as e:
+            return [Violation(f"repacked-bytes-rejected:{kind}:{msgcheck.exc_site(e)}", f"{case['data'].hex()} -> {ay!r} -> {b2.hex()}: {e!r}")]
+        out = []
+        ay2 = absval.to_abstract(y2, decoded=True)
+        if ay2 != ay:
+            d = msgcheck.first_diff(ay, ay2)
+            out.append(Violation(f"decoded-value-roundtrip:{kind}:{msgcheck.diff_field(d)}", f"first difference at {d}: {ay!r} -> {b2.hex()} -> {ay2!r}"))
+        if rest2 != b"":
+            out.append(Violation(f"consumed:{kind}", rest2[:40].hex()))
+        try:
+            if y2.pack(opts) != b2:
+                out.append(Violation(f"re-encode:{kind}", b2[:120].hex()))
+        except Exception as e:
+            out.append(Violation(f"re-encode:{kind}:{msgcheck.exc_site(e)}", repr(e)))
+        return out
+
+    def sample(self, case: t.Any) -> t.Any:
+        return {"data": case["data"][:100].hex(), "len": len(case["data"])}
+
+
 PROP = Property(
     id="C01",
     rule=(
@@ -90,10 +155,10 @@ PROP = Property(
         "length boundaries) packed with default PackingOptions; plus a complete sweep of every str/bytes field of every "
         "kind over the length-boundary sizes. Oracle: unpack gives an equal plain-data projection (enum by .value, exact "
         "types; known-control raw value ignored but must be exposed as bytes), exactly the tail remains, re-pack "
-        "reproduces the bytes. Non-trivial = >=1 control, a field >=128 octets, filter depth >=2, an int <0 or >=2^31, an "
+        "reproduces the bytes; thorough adds an atheris campaign on message values obtained by decoding fuzzed bytes. Non-trivial = >=1 control, a field >=128 octets, filter depth >=2, an int <0 or >=2^31, an "
         "unknown result code, or an empty-but-present optional; distinct by abstract value."
     ),
-    parts=[Messages(), Boundary()],
+    parts=[Messages(), Boundary(), FuzzDecoded()],
     assumptions=[
         "strings are Unicode text without lone surrogates (cannot be UTF-8 encoded)",
         "generic controls never carry a library-known OID; scope in 0..2 and derefAliases in 0..3 (the enum types)",
